@@ -24,8 +24,8 @@ META = {
              "with plain Python and with a second scheduler; distinct = distinct (pipeline, event digest); "
              "non-trivial = >=2 non-empty partitions and >=2 jobs open at once"),
     "abstract_measure": "distinct (terminal op, entry point) pairs",
-    "gates": {"quick": {"groupby_disk": 100, "groupby_tasks": 100, "mp_boundary": 1000, "empty_partition": 1000,
-                        "multi_open": 2000, "big_repartition": 200},
+    "gates": {"quick": {"groupby_disk": 80, "groupby_tasks": 80, "mp_boundary": 700, "empty_partition": 600,
+                        "multi_open": 1000, "big_repartition": 100},
               "thorough": {"groupby_disk": 100}},
     "anchors": ["dask/bag/core.py", "dask/bag/chunk.py"],
     "real": ["dask.bag.core (all listed operations, groupby_disk / groupby_tasks, reductions)",
@@ -71,7 +71,7 @@ def run_one(tape, cfg):
     out = Outcome()
     with tape.span("workload"):
         # "big": one or two long partitions split into many pieces (split() computes float boundaries)
-        big = tape.chance(1, 8, "big")
+        big = tape.chance(1, 12, "big")
         nparts = 1 + tape.draw(2 if big else 6, "nparts")
         parts = []
         for _ in range(nparts):
